@@ -183,7 +183,9 @@ PROPS["C15"] = {
 PROPS["C16"] = {
     "modules": ["SlogModel.Props.C16"],
     "components": [("cfg", 4000, 100000)],
-    "rule": "output-section level: generated serialization / upstream sections (1-3 environment fields, 0-3 hidden fields, 0-3 rewriter "
+    "rule": "file-head level: the sample configuration with its schema size, orchestration keys, tag template and metric keys replaced by generated "
+            "ones (a key twice, a key in both lists, unknown / no keys, a tag variable that is no key, an empty or uncompilable tag, maxFields too small) -> real "
+            "run.NewLoaderFromConfigFile + instantiation vs CfgFile.verify; output-section level: generated serialization / upstream sections (1-3 environment fields, 0-3 hidden fields, 0-3 rewriter "
             "chains inline* + copy|unescape on any field incl. hidden and environment ones, each part damaged with a few percent probability: unknown / empty "
             "field, inline last, a step after the last, an entry without a value, bad mode, missing address / duration) -> real "
             "fluentdforward.Config.VerifyConfig vs CfgSer.verify, accepted ones instantiated by NewEventSerializer and used; file level also on a "
@@ -201,13 +203,15 @@ PROPS["C16"] = {
                   "the reviewed list, each annotated with the check that excludes it); C16_serializer_verify_sound (Model/CfgSer.lean: a Fluentd "
                   "Forward output section that VerifyConfig accepts - environment / hidden fields, a rewriter chain on any field, masked or not, "
                   "message mode, upstream - is instantiated by NewEventSerializer / NewRewritersFromConfig / the rewriters' NewRewriter without "
-                  "reaching a panic site or an error value). The YAML / section-presence glue is decided "
+                  "reaching a panic site or an error value); C16_file_head_verify_sound (Model/CfgFile.lean: schema, by-key-set orchestration "
+                  "keys and tag, metric keys as ParseConfigFile checks them never reach NewOrchestrator's Panicf sites, MustCreateFieldLocators or the "
+                  "Prometheus client's panic on a repeated label name). The YAML / section-presence glue is decided "
                   "by the correspondence run, where the property itself (error value, never a crash) is the oracle.",
     "level_note": "Trusted: Lean kernel + 3 standard axioms; sampled correspondence of Cfg.verifySteps with the real VerifyConfig "
-                  "methods; the text-level template parser and YAML decoding are exercised, not modelled. Inputs / orchestration "
-                  "/ buffer sections and the Datadog output are covered by the file-level mutation run and the must-site inventory, not by a "
+                  "methods; the text-level template parser and YAML decoding are exercised, not modelled. Input "
+                  "and buffer sections, the singleton orchestrator and the Datadog output are covered by the file-level mutation run and the must-site inventory, not by a "
                   "Lean model.",
-    "partial": "verification logic of the input / orchestration / buffer sections not modelled in Lean",
+    "partial": "verification logic of the input and buffer sections, the singleton orchestrator and the Datadog output not modelled in Lean",
     "assumptions": [],
 }
 
@@ -408,14 +412,25 @@ PROPS["C12"] = {
     "components": [("pipe-c12", 1500, 30000), ("agent-c12", 40, 400), ("route", 1500, 30000), ("pool", 3000, 60000)],
     "rule": "one case = one long-lived real record path (pooled records and backing buffers, released after every record) "
             "processing 9 lines of mixed size and shape; every line is processed again on a freshly built path; both outcomes must "
-            "be identical (unless the program samples by percentage) and equal to Pipe.process; distinct by ops; all non-trivial",
+            "be identical (unless the program samples by percentage) and equal to Pipe.process; pool: one case = one real LogAllocator (1-6 "
+            "fields, 1-3 outputs) driven by 4-40 NewRecord / field and header writes / Release calls incl. dropped records, every observation "
+            "compared with Pool.step; distinct by ops; all non-trivial",
     "level_text": "runSteps_stateless (a transform program without percentage sampling returns the state it was given and its "
                   "result does not depend on it; mutual induction over steps and switch cases), process_stateless and "
-                  "C12_isolated (the outcome of a line after any sequence of other lines equals its outcome on a fresh pipeline). "
-                  "Tie: long-lived versus fresh real pipelines and the composed model, record by record; pooled-record layouts, "
+                  "C12_isolated (the outcome of a line after any sequence of other lines equals its outcome on a fresh pipeline). The pooling "
+                  "mechanism itself (Model/Pool.lean = base/logallocator.go; Props/C12Pool.lean): C12_pool_holds_clean_records (after every sequence of "
+                  "NewRecord / field writes / Release - any number of outputs, any choice sync.Pool makes, records released fewer times than they have "
+                  "outputs - every pooled record has all fields empty, raw length 0, zero timestamp, count 0, no backing buffer), "
+                  "C12_new_record_is_clean (the record NewRecord hands out carries nothing of an earlier one and has one reference per output), "
+                  "C12_live_counts_positive (Release cannot reach the negative-count panic on a record that is handed out); the one flag Release leaves "
+                  "behind, Unescaped, is assigned by the parser for every record (fact); three whole-body facts. "
+                  "Tie: the pool component drives the real LogAllocator (which pooled record sync.Pool returned is observed by pointer identity and told "
+                  "to the model) and compares every observation;  long-lived versus fresh real pipelines and the composed model, record by record; pooled-record layouts, "
                   "second serialization and live-chunk aliasing are covered by the C10 / C11 harnesses.",
-    "level_note": "Trusted: Lean kernel + 3 standard axioms. The models have no pooling - that is exactly what the "
-                  "correspondence (not the theorems) decides; multi-output runs serialize each record twice in the C10 harness.",
+    "level_note": "Trusted: Lean kernel + 3 standard axioms. The record pool is modelled and proved clean; the backing-buffer pool "
+                  "(util.BytesPoolBy2n: raw input bytes aliased by field values until release) and every other reused buffer are not in the models - "
+                  "that is what the correspondence (pooled layouts, long-lived vs fresh pipelines) decides; multi-output runs serialize each record "
+                  "twice in the C10 harness.",
     "assumptions": ["percentage sampling is the only documented cross-record state"],
 }
 
